@@ -73,6 +73,7 @@ void UnsatCoreBuilder::buildBody() {
             veriftrace::line("(core-part " + std::to_string(part.x) + " " + std::to_string(partitionManager.getPartitionIndex(part)) +
                              " " + logic.termToSMT2String(part) + ")");
         }
+        veriftrace::line("(core-current " + verifTerms(solver.getCurrentAssertionsView()) + ")");
         veriftrace::line("(core-all " + verifTerms(allTerms) + ")");
     }
     vec<PTRef> verifAllTerms;
